@@ -183,6 +183,7 @@ def adjusted_for_zero_samples(exp):
                 continue
             xs = np.array([x[k] for k in keep])
             if len(set(np.round(xs - e["value"], 300))) == 1 and np.all(back[keep] == e["value"]):
+                ndrop += len(keep)          # every sample of the replica equals the central value: the whole replica reads as 'not measured'
                 continue
             r = float(np.mean(xs))
             kept = [idl[k] for k in keep]
